@@ -42,12 +42,12 @@ CONFIG = {
                      "-j 1..40, every switch decided by the seeded scheduler at thread spawn/join/exit, operation boundaries and the yield "
                      "points inside World::properties. Oracles: answers == sequential reference, TSan reports == 0, output bytes == -j 1 bytes. "
                      "Non-trivial = more than one task was runnable at some decision point; distinct = distinct decision-trace hash."),
-    "C15": dict(parts=[("plain", 1.0), ("asan", 0.15)], quick=1600, thorough=30000, chunk=40, timeout=120,
+    "C15": dict(parts=[("plain", 1.0), ("asan", 0.15), ("tsan", 0.1)], quick=1600, thorough=30000, chunk=40, timeout=120,
                 rule="one run = twins (same file, same seed) and a sibling (other seed) of a generated world with random grain / random "
                      "composition models, same query sequence interleaved differently with unrelated worlds; oracles: twin equality, "
                      "mt19937 engine model (state after every op), rotation/size/bounds validity. Non-trivial = at least one random draw "
                      "happened; distinct = distinct event-log hash."),
-    "C16": dict(parts=[("asan", 1.0)], quick=700, thorough=12000, chunk=20, timeout=180,
+    "C16": dict(parts=[("asan", 1.0), ("tsan", 0.2)], quick=700, thorough=12000, chunk=20, timeout=180,
                 rule="one run = native/C/C++-wrapper twins created with the same arguments (file, output-dir flag and path, seed) and asked "
                      "the same operations; oracles: bit-identical responses, identical file effect traces of the creations, same failures. "
                      "Non-trivial = at least one wrapper response was compared; distinct = distinct event-log hash."),
@@ -275,9 +275,39 @@ class Minimiser:
                 d["features"] = feats
                 s["files"][name] = {"text": json.dumps(d)}
             self.ddmin_list(get, put, 0)
-        # 4. schedule: turn the seeded strategy into an explicit script of deviations and shrink it
-        for holder in [self.best] + [o for o in self.best["ops"] if o.get("op") == "tool"]:
-            pass
+        # 4. schedule: turn the seeded strategy into an explicit script of deviations from
+        #    "continue the current task" (strategy 5) and shrink that script
+        if self.runs < self.budget_runs and time.time() < self.deadline:
+            r = run_exec(self.binary, self.best, self.timeout)
+            self.runs += 1
+            res = r.get("result") or {}
+            holders = []
+            if self.best.get("threads") and res.get("dev"):
+                holders.append((None, res["dev"]))
+            for i, o in enumerate(self.best["ops"]):
+                td = res.get("tool_dev", [])
+                if o.get("op") == "tool" and i < len(td) and o.get("sched", {}).get("strategy", 6) != 6:
+                    holders.append((i, td[i]))
+            for idx, dev in holders:
+                if len(dev) >= 40000:
+                    continue   # script buffer was cut off: keep the seeded strategy
+                cand = copy.deepcopy(self.best)
+                sched = cand["sched"] if idx is None else cand["ops"][idx]["sched"]
+                sched["strategy"] = 5
+                sched["script"] = list(dev)
+                if not self.fails(cand):
+                    continue
+                self.best = cand
+
+                def get(s, idx=idx):
+                    sc = s["sched"] if idx is None else s["ops"][idx]["sched"]
+                    flat = sc["script"]
+                    return [flat[k:k + 2] for k in range(0, len(flat) - 1, 2)]
+
+                def put(s, pairs, idx=idx):
+                    sc = s["sched"] if idx is None else s["ops"][idx]["sched"]
+                    sc["script"] = [x for pr in pairs for x in pr]
+                self.ddmin_list(get, put, 0)
         return self.best
 
 
@@ -565,6 +595,9 @@ def check(prop, tier, seed, runs_override=None, workers=None, repo="/repo", time
     evdir = os.path.join(VERIF, "evidence") if os.path.realpath(repo) == "/repo" else os.path.join(VERIF, "work", "evidence-scratch")
     os.makedirs(evdir, exist_ok=True)
     json.dump(ev, open(os.path.join(evdir, prop + ".json"), "w"), indent=1)
+    # a violation that passed the gate is a violation, whatever else could not be reproduced
+    if n_new > 0:
+        exit_code = 1
     for l in lines:
         print(l)
     print("check.py: property=%s tier=%s seed=%d runs=%d evaluations=%d distinct=%d wall=%.1fs exit=%d" % (
